@@ -9,6 +9,8 @@ T_minifier:
   mtw_to_lines_src      body of to_lines (docstring dropped)
   mtw_chunks_src        body of _minified_chunks
   mtw_init_flags_src    the flag initialisations of __init__
+T_minifier_p8 (pico8/game/formatter/p8.py):
+  p8_lua_section_src    the four statements of P8Formatter.to_file that write the __lua__ section
 Each text is pinned by a reflexivity lemma in Proofs/TokWritersProofs.v: an edit of the writer breaks the
 pin, i.e. the hand model (Model/TokWriters.v) must be revisited; nothing drifts silently.
 """
@@ -81,6 +83,19 @@ def lua_extra(mod, tree, src):
             emit('mtw_init_flags_src', 'LuaMinifyTokenWriter.__init__: initial flags', init_flags))
 
 
+def p8_extra(mod, tree, src):
+    import py2gallina as P
+
+    def lua_section_loop():
+        fn = P.find_function(tree, 'P8Formatter.to_file')
+        idx = [i for i, st in enumerate(fn.body) if ast.unparse(st) == "outstr.write(b'__lua__\\n')"]
+        if len(idx) != 1:
+            raise ValueError('lua_section_start_found_%d_times' % len(idx))
+        return ast.unparse(ast.Module(body=fn.body[idx[0]:idx[0] + 4], type_ignores=[]))
+    return emit('p8_lua_section_src', 'P8Formatter.to_file: how the __lua__ section is written', lua_section_loop)
+
+
 MODULES = [
     ('pico8.lua.lua', 'pico8/lua/lua.py', {'file': 'T_minifier', 'kernels': [], 'extra': lua_extra}),
+    ('pico8.game.formatter.p8', 'pico8/game/formatter/p8.py', {'file': 'T_minifier_p8', 'kernels': [], 'extra': p8_extra}),
 ]
